@@ -11,6 +11,7 @@ import itertools
 
 from ..gen import c01_enc as E
 from ..gen import c01_rsmi as R
+from ..gen import c02_enc as X
 from . import C01 as P1
 
 PID = "C02"
@@ -74,16 +75,65 @@ def _its_nx(case):
     gh = P1._graphs_nx(case)
     if gh is None:
         return None
+    if "ia" in case:
+        return ITSConstruction.ITSGraph(gh[0], gh[1], ignore_aromaticity=case["ia"], balance_its=case.get("bal", False))
     return ITSConstruction.ITSGraph(*gh)
 
 
 RADII = (0, 1, 2, 3)
 
 
+OPTS = ((False, False), (False, True), (True, False), (True, True))     # (disconnected, keep_mtg), order of run_opts
+
+
+def impl_x(case):
+    from synkit.Graph.ITS.its_decompose import get_rc
+    out = []
+    for disc, keep in OPTS:
+        I = E.to_nx(case["X"])
+        rc = get_rc(I, element_key=list(case["keys"]), disconnected=disc, keep_mtg=keep)
+        rc2 = get_rc(rc, element_key=list(case["keys"]), disconnected=disc, keep_mtg=keep)
+        out.append([X.obs_xits(rc), X.obs_xits(rc2)])
+    return out
+
+
+def impl_helpers(case):
+    from synkit.Graph.Context.radius_expand import RadiusExpand
+    from ..tok import S
+    I = _its_nx(case)
+    if I is None:
+        return ["unparsable"]
+    return [S(sorted(RadiusExpand.find_unequal_order_edges(I))), E.obs_its(RadiusExpand.remove_normal_edges(I, "standard_order")),
+            [X.obs_ctx(RadiusExpand.extract_k(I, k)) for k in case["helpers"]]]
+
+
+def impl_lre(case):
+    from synkit.Graph.ITS.its_decompose import get_rc
+    from synkit.Graph.Context.radius_expand import RadiusExpand
+    I = E.to_nx(case["I"])
+    path = RadiusExpand.longest_radius_extension(I, list(get_rc(I).nodes()))
+    return [list(path), X.obs_ctx(RadiusExpand.extract_k(I, -1))]
+
+
+def impl_list(case):
+    from synkit.Graph.Context.radius_expand import RadiusExpand
+    data = [{"ITS": E.to_nx(g), "id": i} for i, g in enumerate(case["Is"])]
+    out = RadiusExpand.paralle_context_extraction(data, n_knn=case["k"])
+    return [[E.obs_its(d["ITS"]), E.obs_its(d["K"])] for d in out]
+
+
 def impl(case):
     from synkit.Graph.ITS.its_decompose import get_rc
     from synkit.Graph.Context.radius_expand import RadiusExpand
     from ..tok import S
+    if "X" in case:
+        return impl_x(case)
+    if "Is" in case:
+        return impl_list(case)
+    if case.get("lre"):
+        return impl_lre(case)
+    if "helpers" in case:
+        return impl_helpers(case)
     I = _its_nx(case)
     if I is None:
         return ["unparsable"]
@@ -97,11 +147,29 @@ def impl(case):
 def coq_case(case):
     worker_init()
     try:
+        if "X" in case:
+            return "run_opts %s %s" % (X.coq_keys(case["keys"]), X.coq_xits(case["X"]))
+        if "Is" in case:
+            return "run_list %s (%d)" % (X.coq_its_list(case["Is"]), case["k"])
+        if case.get("lre"):
+            return "run_lre %s" % E.coq_its(case["I"])
+        if "helpers" in case:
+            ks = "[%s]" % "; ".join("(%d)" % k for k in case["helpers"])
+            if "I" in case:
+                return "run_helpers %s %s" % (E.coq_its(case["I"]), ks)
+            gh = P1._graphs_nx(case)
+            if gh is None:
+                return None
+            return "run_helpers (its_construct_o %s %s %s %s) %s" % (E.cb(case.get("ia", False)), E.cb(case.get("bal", False)),
+                                                                    E.coq_mgraph(E.from_nx(gh[0])), E.coq_mgraph(E.from_nx(gh[1])), ks)
         if "I" in case:
             return "run %s" % E.coq_its(case["I"])
         gh = P1._graphs_nx(case)
         if gh is None:
             return None
+        if "ia" in case:
+            return "run_pair_o %s %s %s %s" % (E.cb(case["ia"]), E.cb(case.get("bal", False)),
+                                               E.coq_mgraph(E.from_nx(gh[0])), E.coq_mgraph(E.from_nx(gh[1])))
         return "run_pair %s %s" % (E.coq_mgraph(E.from_nx(gh[0])), E.coq_mgraph(E.from_nx(gh[1])))
     except (KeyError, TypeError, ValueError):
         return None
@@ -129,11 +197,34 @@ def proper_its(I):
 LABELS = ("element", "charge", "typesGH", "atom_map")
 
 
+def its_class(I):
+    """'std': standard_order = order difference on every edge (ITSGraph default);
+    'ia' : standard_order = difference with |difference| < 1 zeroed (ITSGraph(ignore_aromaticity=True)) and not 'std';
+    None : neither, or a label is missing (only the model/implementation correspondence is checked)."""
+    for n, d in I.nodes(data=True):
+        if any(k not in d for k in LABELS) or d["typesGH"][0][0] != d["element"]:
+            return None
+    std, ia = True, True
+    for u, v, d in I.edges(data=True):
+        o = d.get("order")
+        if not isinstance(o, (tuple, list)) or len(o) != 2 or "standard_order" not in d:
+            return None
+        diff = o[0] - o[1]
+        std = std and d["standard_order"] == diff
+        ia = ia and d["standard_order"] == (0 if abs(diff) < 1 else diff)
+    return "std" if std else ("ia" if ia else None)
+
+
+def differs(order, cls):
+    """the bond counts as changed: orders differ; on ignore_aromaticity ITS graphs: differ by at least 1"""
+    return order[0] != order[1] if cls == "std" else abs(order[0] - order[1]) >= 1
+
+
 def _same_edge_attrs(d1, d2):
     return tuple(d1.get("order")) == tuple(d2.get("order")) and d1.get("standard_order") == d2.get("standard_order")
 
 
-def centre_clauses(I):
+def centre_clauses(I, cls="std"):
     from synkit.Graph.ITS.its_decompose import get_rc
     from synkit.Graph.Context.radius_expand import RadiusExpand
     fails = []
@@ -141,7 +232,7 @@ def centre_clauses(I):
     el = {n: d["element"] for n, d in I.nodes(data=True)}
     want = {}
     for u, v, d in I.edges(data=True):
-        if d["order"][0] != d["order"][1] or (el[u] == "H" and el[v] == "H"):
+        if differs(d["order"], cls) or (el[u] == "H" and el[v] == "H"):
             want[frozenset((u, v))] = d
     got = {frozenset((u, v)): d for u, v, d in rc.edges(data=True)}
     if set(got) != set(want):
@@ -221,12 +312,226 @@ def _iso_centres(rc1, rc2, pi=None):
     return nx.is_isomorphic(rc1, rc2, node_match=lambda a, b: _strip(a) == _strip(b), edge_match=_same_edge_attrs)
 
 
+# ------------------------------------------------------------------ oracles of the option / helper populations
+
+HH_FALLBACK = (("H", False, 0, 0, []), ("*", False, 0, 0, []))
+
+
+def _gh_eq(a, b):
+    return _tup(a) == _tup(b)
+
+
+def ref_centre(I, keys, disc, keep):
+    """what get_rc(I, element_key=keys, disconnected=disc, keep_mtg=keep) is documented to return, on plain dicts:
+    bonds {pair: (order, standard_order, is_mtg or '<absent>')}, atoms {id: expected attribute dict}"""
+    el = {n: d.get("element") for n, d in I.nodes(data=True)}
+    inc, hh = {}, {}
+    for u, v, d in I.edges(data=True):
+        std = d.get("standard_order")
+        if (isinstance(std, (int, float)) and std != 0) or (keep and d.get("is_mtg", False)):
+            inc[frozenset((u, v))] = d
+        elif el[u] == "H" and el[v] == "H":
+            hh[frozenset((u, v))] = d
+    bonds = {k: (tuple(d["order"]), d["standard_order"], d.get("is_mtg", False)) for k, d in list(inc.items()) + list(hh.items())}
+    inc_atoms = {x for k in inc for x in k}
+    hh_atoms = {x for k in hh for x in k} - inc_atoms
+    atoms = {}
+    for n in inc_atoms | hh_atoms:
+        d = I.nodes[n]
+        atoms[n] = {k: d[k] for k in keys if k in d}
+        if n in hh_atoms:
+            atoms[n]["typesGH"] = d.get("typesGH", HH_FALLBACK)
+    if disc:
+        for n, d in I.nodes(data=True):
+            gh = d.get("typesGH")
+            if gh is not None and gh[0][3] != gh[1][3] and n not in atoms:
+                atoms[n] = {k: d[k] for k in keys if k in d}
+        for u, v, d in I.edges(data=True):
+            k = frozenset((u, v))
+            if u in atoms and v in atoms and k not in bonds:
+                bonds[k] = (tuple(d["order"]), d["standard_order"], "<absent>")
+    return bonds, atoms
+
+
+def _attrs_eq(got, want):
+    if set(got) != set(want):
+        return False
+    return all(_gh_eq(got[k], want[k]) if k in ("typesGH", "neighbors") else got[k] == want[k] for k in want)
+
+
+def oracle_x(case):
+    from synkit.Graph.ITS.its_decompose import get_rc
+    fails = []
+    keys = list(case["keys"])
+    base = None
+    for disc, keep in OPTS:
+        I = E.to_nx(case["X"])
+        rc = get_rc(I, element_key=list(keys), disconnected=disc, keep_mtg=keep)
+        tag = "disconnected=%s keep_mtg=%s element_key=%r" % (disc, keep, keys)
+        bonds, atoms = ref_centre(E.to_nx(case["X"]), keys, disc, keep)
+        got = {frozenset((u, v)): (tuple(d.get("order", ())), d.get("standard_order"), d.get("is_mtg", "<absent>")) for u, v, d in rc.edges(data=True)}
+        if set(got) != set(bonds):
+            fails.append(dict(clause="opt-centre-bonds", detail="%s: centre bonds %r, expected (changed%s or H-H%s) %r"
+                              % (tag, sorted(map(sorted, got)), " or is_mtg" if keep else "", ", then all ITS bonds between centre atoms" if disc else "",
+                                 sorted(map(sorted, bonds)))))
+        elif got != bonds:
+            bad = sorted(sorted(k) for k in got if got[k] != bonds[k])[0]
+            fails.append(dict(clause="opt-centre-bond-labels", detail="%s: bond %r: centre %r, expected %r"
+                              % (tag, bad, got[frozenset(bad)], bonds[frozenset(bad)])))
+        if set(rc.nodes) != set(atoms):
+            fails.append(dict(clause="opt-centre-atoms", detail="%s: centre atoms %r, expected %r" % (tag, sorted(rc.nodes), sorted(atoms))))
+        else:
+            for n in rc.nodes:
+                if not _attrs_eq(dict(rc.nodes[n]), atoms[n]):
+                    fails.append(dict(clause="opt-centre-atom-labels", detail="%s: atom %r: centre %r, expected %r" % (tag, n, dict(rc.nodes[n]), atoms[n])))
+                    break
+        # the default centre is a subgraph of every variant
+        if (disc, keep) == (False, False):
+            base = (set(rc.nodes), set(got))
+        elif base is not None and not (base[0] <= set(rc.nodes) and base[1] <= set(got)):
+            fails.append(dict(clause="opt-default-within-variant", detail="%s: the default centre is not a subgraph of this variant" % tag))
+        # the input is not mutated
+        J = E.to_nx(case["X"])
+        if dict(I.nodes(data=True)) != dict(J.nodes(data=True)) or {frozenset(e[:2]): e[2] for e in I.edges(data=True)} != {frozenset(e[:2]): e[2] for e in J.edges(data=True)}:
+            fails.append(dict(clause="opt-input-mutated", detail="%s: get_rc changed its input graph" % tag))
+        if fails:
+            break
+    return fails[:3]
+
+
+def _ball(I, seeds, k):
+    adj = {n: set() for n in I.nodes}
+    for u, v in I.edges:
+        adj[u].add(v)
+        adj[v].add(u)
+    ball = set(seeds)
+    for _ in range(k):
+        ball = ball | {m for x in ball for m in adj[x]}
+    return ball
+
+
+def oracle_helpers(case):
+    from synkit.Graph.ITS.its_decompose import get_rc
+    from synkit.Graph.Context.radius_expand import RadiusExpand
+    import copy
+    I = _its_nx(case)
+    if I is None:
+        return []
+    cls = its_class(I)
+    fails = []
+    I0 = copy.deepcopy(I)
+    un = set(RadiusExpand.find_unequal_order_edges(I))
+    rc = get_rc(I)
+    if cls is not None:
+        want = {x for u, v, d in I.edges(data=True) if differs(d["order"], cls) for x in (u, v)}
+        if un != want:
+            fails.append(dict(clause="helper-unequal-order-atoms", detail="find_unequal_order_edges %r, atoms on a bond whose order changes %r" % (sorted(un), sorted(want))))
+        hh = any(I.nodes[u]["element"] == "H" and I.nodes[v]["element"] == "H" and not differs(d["order"], cls) for u, v, d in I.edges(data=True))
+        if not un <= set(rc.nodes) or (not hh and un != set(rc.nodes)):
+            fails.append(dict(clause="helper-unequal-vs-centre", detail="find_unequal_order_edges %r vs centre atoms %r (unchanged H-H bond present: %s)" % (sorted(un), sorted(rc.nodes), hh)))
+    if all("standard_order" in d for _, _, d in I.edges(data=True)):
+        R_ = RadiusExpand.remove_normal_edges(I, "standard_order")
+        want_e = {frozenset((u, v)) for u, v, d in I.edges(data=True) if d["standard_order"] != 0}
+        if set(R_.nodes) != set(I.nodes) or {frozenset(e) for e in R_.edges} != want_e or any(R_.nodes[n] != I.nodes[n] for n in I.nodes) \
+                or any(not _same_edge_attrs(R_.edges[tuple(e)], I.edges[tuple(e)]) for e in want_e):
+            fails.append(dict(clause="helper-remove-normal-edges", detail="remove_normal_edges(I, 'standard_order') is not I without its standard_order = 0 bonds"))
+    for k in case["helpers"]:
+        if k <= 0:
+            continue
+        ctx = RadiusExpand.extract_k(I, k)
+        ball = _ball(I, rc.nodes, k)
+        if set(ctx.nodes) != ball or {frozenset(e) for e in ctx.edges} != {frozenset((u, v)) for u, v in I.edges if u in ball and v in ball}:
+            fails.append(dict(clause="context-atoms", detail="radius %d: context atoms %r, atoms within %d bonds of the centre %r" % (k, sorted(ctx.nodes), k, sorted(ball))))
+            break
+    if dict(I.nodes(data=True)) != dict(I0.nodes(data=True)) or sorted(map(repr, I.edges(data=True))) != sorted(map(repr, I0.edges(data=True))):
+        fails.append(dict(clause="helper-input-mutated", detail="a RadiusExpand helper changed its input graph"))
+    return fails[:3]
+
+
+def _longest_zero_path_from(I, start, limit=200000):
+    best, count = [1], [0]
+
+    def go(n, seen, length):
+        count[0] += 1
+        if count[0] > limit:
+            return
+        best[0] = max(best[0], length)
+        for m in I.neighbors(n):
+            if m not in seen and I[n][m].get("standard_order", 1) == 0:
+                go(m, seen | {m}, length + 1)
+    go(start, {start}, 1)
+    return best[0] if count[0] <= limit else None
+
+
+def oracle_lre(case):
+    from synkit.Graph.ITS.its_decompose import get_rc
+    from synkit.Graph.Context.radius_expand import RadiusExpand
+    I = E.to_nx(case["I"])
+    rc_nodes = list(get_rc(I).nodes())
+    path = RadiusExpand.longest_radius_extension(I, list(rc_nodes))
+    fails = []
+    ok = len(set(path)) == len(path) and (not path or path[0] in rc_nodes) and (bool(path) == bool(rc_nodes)) \
+        and all(I.has_edge(a, b) and I[a][b].get("standard_order", 1) == 0 for a, b in zip(path, path[1:]))
+    if not ok:
+        fails.append(dict(clause="extension-path", detail="longest_radius_extension %r is not a simple path of unchanged bonds starting in a centre atom %r" % (path, rc_nodes)))
+    elif rc_nodes:
+        ref = _longest_zero_path_from(I, rc_nodes[0])
+        if ref is not None and len(path) < ref:
+            fails.append(dict(clause="extension-longest", detail="longest_radius_extension has %d atoms, a simple path of unchanged bonds with %d atoms starts in the first centre atom %r" % (len(path), ref, rc_nodes[0])))
+    ctx = RadiusExpand.extract_k(I, -1)
+    ball = _ball(I, rc_nodes, len(path))
+    if set(ctx.nodes) != ball:
+        fails.append(dict(clause="context-atoms", detail="n_knn=-1: context atoms %r, atoms within %d bonds of the centre %r" % (sorted(ctx.nodes), len(path), sorted(ball))))
+    return fails
+
+
+def _graph_eq(A, B):
+    return dict(A.nodes(data=True)) == dict(B.nodes(data=True)) and \
+        {frozenset(e[:2]): e[2] for e in A.edges(data=True)} == {frozenset(e[:2]): e[2] for e in B.edges(data=True)}
+
+
+def oracle_list(case):
+    """paralle_context_extraction / context_extraction over a list: inputs not mutated, K added, order preserved,
+    element i of the result depends only on element i (compared with extract_k on a fresh copy of element i alone)."""
+    from synkit.Graph.Context.radius_expand import RadiusExpand
+    k = case["k"]
+    data = [{"ITS": E.to_nx(g), "id": i} for i, g in enumerate(case["Is"])]
+    out = RadiusExpand.paralle_context_extraction(data, n_knn=k)
+    fails = []
+    if len(out) != len(data) or [d.get("id") for d in out] != list(range(len(data))):
+        return [dict(clause="list-order", detail="result ids %r for %d inputs" % ([d.get("id") for d in out], len(data)))]
+    for i, (d, o) in enumerate(zip(data, out)):
+        fresh = E.to_nx(case["Is"][i])
+        if set(d) != {"ITS", "id"} or not _graph_eq(d["ITS"], fresh):
+            fails.append(dict(clause="list-input-mutated", detail="input dict %d was changed (keys %r)" % (i, sorted(d))))
+        if set(o) != {"ITS", "id", "K"} or not _graph_eq(o["ITS"], fresh):
+            fails.append(dict(clause="list-output-dict", detail="output dict %d: keys %r or its ITS differs from the input" % (i, sorted(o))))
+            continue
+        want = RadiusExpand.extract_k(E.to_nx(case["Is"][i]), k)
+        if not _graph_eq(o["K"], want):
+            fails.append(dict(clause="list-element-independent", detail="element %d of %d: K has atoms %r, extract_k on this element alone gives %r (n_knn=%d)"
+                              % (i, len(data), sorted(o["K"].nodes), sorted(want.nodes), k)))
+        one = RadiusExpand.context_extraction({"ITS": E.to_nx(case["Is"][i])}, n_knn=k)
+        if not _graph_eq(one["K"], want):
+            fails.append(dict(clause="list-element-independent", detail="context_extraction on element %d alone differs from extract_k" % i))
+    return fails[:3]
+
+
 def oracle(case):
     from synkit.Graph.ITS.its_decompose import get_rc
+    if "X" in case:
+        return oracle_x(case)
+    if "Is" in case:
+        return oracle_list(case)
+    if case.get("lre"):
+        return oracle_lre(case)
+    if "helpers" in case:
+        return oracle_helpers(case)
     I = _its_nx(case)
-    if I is None or not proper_its(I):
+    cls = its_class(I) if I is not None else None
+    if cls is None:
         return []
-    fails, rc = centre_clauses(I)
+    fails, rc = centre_clauses(I, cls)
     # renumbering the atom maps yields an isomorphic centre
     if "pi" in case:
         import networkx as nx
@@ -236,16 +541,29 @@ def oracle(case):
             d["atom_map"] = n
         if not _iso_centres(rc, get_rc(J), pi):
             fails.append(dict(clause="centre-renumbering", detail="centre of the renumbered ITS is not isomorphic to the centre; pi=%r" % pi))
-    if case.get("kind") == "rw-renum" and "orig" in case:
-        I0 = _its_nx(dict(rsmi=case["orig"]))
-        if I0 is not None and proper_its(I0) and not _iso_centres(get_rc(I0), rc):
+    if case.get("kind", "").startswith(("rw-renum", "rw-ring")) and "orig" in case:
+        I0 = _its_nx(dict(case, rsmi=case["orig"]))
+        if I0 is not None and its_class(I0) == cls and not _iso_centres(get_rc(I0), rc):
             fails.append(dict(clause="centre-renumbering", detail="centre of the renumbered reaction is not isomorphic to the centre of %r" % case["orig"]))
     return fails[:3]
 
 
+def _special(case):
+    return "X" in case or "Is" in case or "helpers" in case or bool(case.get("lre"))
+
+
 def nontrivial(case, obs):
+    if "X" in case:
+        # some option changes the centre
+        return isinstance(obs, list) and len(obs) == 4 and any(o != obs[0] for o in obs[1:])
+    if "Is" in case:
+        return len(case["Is"]) >= 2
+    if case.get("lre"):
+        return isinstance(obs, list) and len(obs) == 2 and len(obs[0]) >= 2
+    if "helpers" in case:
+        return isinstance(obs, list) and len(obs) == 3 and len(obs[0]["__set__"]) > 0
     I = _its_nx(case)
-    if I is None or not proper_its(I):
+    if I is None or its_class(I) is None:
         return False
     n_rc = len(obs[0][0]["__set__"])
     return 0 < n_rc < I.number_of_nodes()
@@ -253,7 +571,21 @@ def nontrivial(case, obs):
 
 def distribution(cases, obss):
     sizes, rcs, grow, hh, incons, empty = {}, {}, 0, 0, 0, 0
+    kinds, opt_eff, lre_len, ia_zeroed = {}, {"keep_mtg": 0, "disconnected": 0, "both_differ_from_each": 0}, {}, 0
     for c, o in zip(cases, obss):
+        kinds[c.get("kind", "?")] = kinds.get(c.get("kind", "?"), 0) + 1
+        if "X" in c:
+            if isinstance(o, list) and len(o) == 4:
+                opt_eff["keep_mtg"] += o[1] != o[0]
+                opt_eff["disconnected"] += o[2] != o[0]
+                opt_eff["both_differ_from_each"] += o[3] != o[1] and o[3] != o[2]
+            continue
+        if c.get("lre"):
+            if isinstance(o, list) and len(o) == 2:
+                lre_len[str(len(o[0]))] = lre_len.get(str(len(o[0])), 0) + 1
+            continue
+        if _special(c):
+            continue
         if not (isinstance(o, list) and len(o) == 4):
             sizes["unparsable"] = sizes.get("unparsable", 0) + 1
             continue
@@ -270,12 +602,31 @@ def distribution(cases, obss):
             hh += 1
         if any(e[4] != e[2] - e[3] for e in o[0][1]["__set__"]):
             incons += 1
-    return dict(context3_sizes=sizes, centre_sizes=rcs, strictly_growing_to_radius_3=grow, centre_with_unchanged_HH_bond=hh,
+        if "ia" in c and c["ia"] and any(e[4] == 0 and e[2] != e[3] for e in o[3][1]["__set__"]):
+            ia_zeroed += 1
+    return dict(kinds=kinds, option_changes_centre=opt_eff, longest_extension_lengths=lre_len,
+                ignore_aromaticity_its_with_zeroed_half_order_change=ia_zeroed, context3_sizes=sizes, centre_sizes=rcs, strictly_growing_to_radius_3=grow, centre_with_unchanged_HH_bond=hh,
                 centre_with_inconsistent_standard_order=incons, empty_centre=empty)
 
 
 def shrink(case, fl):
-    if "I" not in case:
+    if "X" in case:
+        cur = case
+        changed = True
+        while changed:
+            changed = False
+            for n in [x[0] for x in cur["X"]["nodes"]]:
+                cand = dict(cur, X={"nodes": [x for x in cur["X"]["nodes"] if x[0] != n],
+                                    "edges": [e for e in cur["X"]["edges"] if n not in e[:2]]})
+                try:
+                    if oracle(cand):
+                        cur = dict(cand, name=case.get("name", "") + "(shrunk)")
+                        changed = True
+                        break
+                except Exception:
+                    pass
+        return cur
+    if "I" not in case or _special(case):
         return case
     cur = case
     changed = True
@@ -395,10 +746,10 @@ def gen_pairs(rng, tier):
     ex1 = [c for c in small if c["kind"] == "exh1"]
     ex2 = [c for c in small if c["kind"] == "exh2"]
     if tier == "quick":
-        ex2 = rng.sample(ex2, 3000)
+        ex2 = rng.sample(ex2, 1200)
     for c in ex1 + ex2:
         cases.append(dict(kind="pair-" + c["kind"], G=c["G"], H=c["H"]))
-    for c in P1.gen_random(rng, 500 if tier == "quick" else 6000, maxn=10):
+    for c in P1.gen_random(rng, 400 if tier == "quick" else 6000, maxn=10):
         cases.append(dict(kind="pair-rand", G=c["G"], H=c["H"]))
     for c in P1.gen_malformed(rng, 150 if tier == "quick" else 1500):
         cases.append(dict(kind="pair-malformed", G=c["G"], H=c["H"]))
@@ -426,12 +777,109 @@ def gen_corpus(rng, n_sample, n_rewrites):
     return cases
 
 
-def gen_cases(tier, rng):
-    cases = gen_exhaustive_its()
+def gen_options(rng, tier):
+    """get_rc(element_key, disconnected, keep_mtg): exhaustive small scope with the default keys and one PRNG key list,
+    random graphs up to 9 nodes with PRNG key lists"""
+    cases = []
+    for g in X.gen_x_exhaustive():
+        cases.append(dict(kind="x-exh", X=g, keys=list(X.DEFAULT_KEYS)))
+        if len(g["nodes"]) == 2:
+            cases.append(dict(kind="x-exh-keys", X=g, keys=list(rng.choice(X.KEY_CHOICES[1:]))))
+    for _ in range(500 if tier == "quick" else 6000):
+        cases.append(dict(kind="x-rand", X=X.rand_x(rng, rng.randint(2, 9)), keys=list(rng.choice(X.KEY_CHOICES))))
+    return cases
+
+
+HELPER_RADII = [0, 1, 4, 7]
+
+
+def _cyclic_its(rng, n):
+    """ring(s) of unchanged bonds with a changed bond: many equally long extension paths"""
+    ids = rng.sample(range(0, 30), n)
+    edges = [[ids[i], ids[(i + 1) % n], its_edge(1, 1)] for i in range(n)]
+    for _ in range(rng.randint(0, 2)):
+        i, j = rng.sample(range(n), 2)
+        if abs(i - j) not in (1, n - 1) and not any({e[0], e[1]} == {ids[i], ids[j]} for e in edges):
+            edges.append([ids[i], ids[j], its_edge(1, 1)])
+    for e in rng.sample(edges, rng.randint(1, 2)):
+        e[2] = its_edge(*rng.choice([(1, 2), (0, 1), (1, 0)]))
+    rng.shuffle(edges)
+    nodes = [[i, its_node(i, rng.choice(("C", "C", "H", "O")))] for i in ids]
+    rng.shuffle(nodes)
+    return {"nodes": nodes, "edges": edges}
+
+
+def gen_helpers(rng, tier, exh):
     q = tier == "quick"
-    cases += gen_random_its(rng, 900 if q else 12000, "its-rand")
-    cases += gen_random_its(rng, 500 if q else 6000, "its-incons")
+    cases = []
+    small = [c for c in exh if len(c["I"]["nodes"]) <= 2]
+    three = [c for c in exh if len(c["I"]["nodes"]) == 3]
+    for c in small + (rng.sample(three, 500) if q else three):
+        cases.append(dict(kind="help-exh", I=c["I"], helpers=HELPER_RADII))
+    for kind in ("its-rand", "its-incons"):
+        for c in gen_random_its(rng, 250 if q else 3000, kind, maxn=12):
+            cases.append(dict(kind="help-" + kind[4:], I=c["I"], helpers=HELPER_RADII))
+    # n_knn = -1 on graphs in canonical (networkx iteration) order
+    for _ in range(250 if q else 3000):
+        g = _rand_its(rng, rng.randint(2, 9), "its-rand") if rng.random() < 0.6 else _cyclic_its(rng, rng.randint(3, 7))
+        for e in g["edges"]:
+            e[2].pop("is_mtg", None)
+        cases.append(dict(kind="lre", I=X.canon(g), lre=True))
+    # lists of reaction dicts
+    pool = [c["I"] for c in gen_random_its(rng, 120 if q else 1200, "its-rand", maxn=8)] + [c["I"] for c in rng.sample(three, 60)]
+    for _ in range(60 if q else 600):
+        gs = [rng.choice(pool) for _ in range(rng.randint(1, 5))]
+        if rng.random() < 0.3 and len(gs) >= 2:
+            gs[-1] = gs[0]                 # the same graph twice in one list
+        cases.append(dict(kind="list", Is=gs, k=rng.choice((0, 1, 1, 2, 3))))
+    return cases
+
+
+def gen_ia(rng, tier):
+    """ITSGraph(G, H, ignore_aromaticity=True[, balance_its=True]) of synthetic pairs and corpus reactions"""
+    q = tier == "quick"
+    cases = []
+    for c in P1.gen_random(rng, 450 if q else 5000, maxn=8):
+        cases.append(dict(kind="pair-ia", G=c["G"], H=c["H"], ia=True, bal=rng.random() < 0.5))
+    for c in P1.gen_malformed(rng, 100 if q else 1000):
+        cases.append(dict(kind="pair-ia-malformed", G=c["G"], H=c["H"], ia=rng.random() < 0.7, bal=True))
+    small = [c for c in P1.gen_exhaustive_small(rng) if c["kind"] == "exh2"]
+    for c in rng.sample(small, 300 if q else 4000):
+        cases.append(dict(kind="pair-ia-exh2", G=c["G"], H=c["H"], ia=True, bal=rng.random() < 0.5))
+    for c in P1.gen_random(rng, 150 if q else 1500, maxn=8):
+        cases.append(dict(kind="help-pair-ia", G=c["G"], H=c["H"], ia=True, bal=False, helpers=HELPER_RADII))
+    return cases
+
+
+def gen_corpus_ext(rng, n_sample):
+    """corpus reactions: ignore_aromaticity / balance_its ITS, atom maps renumbered into 10..99 and 100..999,
+    ring-closure digits rewritten as %1d"""
+    corpus = R.load_corpus()
+    good = [(s, i, r) for s, i, r in corpus if R.well_formed(r)]
+    chosen = good if n_sample is None else rng.sample(good, n_sample)
+    cases = []
+    for s, i, r in chosen:
+        src = "%s#%d" % (s, i)
+        cases.append(dict(kind="corpus-ia", rsmi=r, src=src, ia=True, bal=rng.random() < 0.5))
+        cases.append(dict(kind="rw-renum10", rsmi=X.renumber_into(r, rng, 10, 100), orig=r, src=src))
+        cases.append(dict(kind="rw-renum100", rsmi=X.renumber_into(r, rng, 100, 1000), orig=r, src=src))
+        rr = X.ring_digits_plus(r)
+        if rr is not None:
+            cases.append(dict(kind="rw-ring10", rsmi=X.renumber_into(rr, rng, 10, 100), orig=r, src=src))
+    return cases
+
+
+def gen_cases(tier, rng):
+    exh = gen_exhaustive_its()
+    cases = list(exh)
+    q = tier == "quick"
+    cases += gen_random_its(rng, 600 if q else 12000, "its-rand")
+    cases += gen_random_its(rng, 400 if q else 6000, "its-incons")
     cases += gen_random_its(rng, 200 if q else 2000, "its-toplevel")
     cases += gen_pairs(rng, tier)
     cases += gen_corpus(rng, 40 if q else None, 1 if q else 2)
+    cases += gen_options(rng, tier)
+    cases += gen_helpers(rng, tier, [c for c in exh if c["kind"] == "its-exh"])
+    cases += gen_ia(rng, tier)
+    cases += gen_corpus_ext(rng, 30 if q else None)
     return cases
